@@ -26,21 +26,21 @@ def plan(pid, tier, seed):
     quick = tier == "quick"
     if quick:
         mc = [
-            # every text of <= 4 cells: 191 212 states, ~7 s; 14 563 texts inside the quantifier
+            # every text of <= 3 cells (boundary shapes: empty comment, marker only, one cell): all replayed
+            {"module": "Todo", "cfg": "Todo_Gen_small.cfg", "emit": True, "sample": None, "properties": PROPS_ALL, "timeout": 300},
+            # every text of <= 4 cells: ~191 000 states, ~7 s; the texts inside the quantifier are sampled
             {"module": "Todo", "cfg": "Todo_MC_quick.cfg", "emit": True, "sample": 9000, "properties": PROPS_ALL, "timeout": 600},
-        ]
-        gen = [
-            # every text of <= 3 cells is always replayed (boundary shapes: marker only, one cell, empty)
-            {"module": "Todo", "cfg": "Todo_Gen_small.cfg", "timeout": 300},
         ]
     else:
         mc = [
-            {"module": "Todo", "cfg": "Todo_MC_thorough.cfg", "emit": True, "sample": None, "properties": PROPS_ALL,
-             "timeout": 3600, "coverage": False},
-            {"module": "Todo", "cfg": "Todo_MC_comment.cfg", "emit": True, "sample": 150000, "properties": PROPS_ALL,
+            {"module": "Todo", "cfg": "Todo_Gen_small.cfg", "emit": True, "sample": None, "properties": PROPS_ALL, "timeout": 300},
+            {"module": "Todo", "cfg": "Todo_MC_quick.cfg", "emit": True, "sample": None, "properties": PROPS_ALL, "timeout": 600},
+            {"module": "Todo", "cfg": "Todo_MC_thorough.cfg", "emit": True, "sample": 120000, "properties": PROPS_ALL,
              "timeout": 3600, "coverage": True},
+            {"module": "Todo", "cfg": "Todo_MC_comment.cfg", "emit": True, "sample": 120000, "properties": PROPS_ALL, "timeout": 3600},
+            {"module": "Todo", "cfg": "Todo_MC_wide.cfg", "emit": True, "sample": 40000, "properties": PROPS_ALL, "timeout": 3600},
         ]
-        gen = []
+    gen = []
     return {
         "harness": "todo",
         "needs_coca": True,
@@ -72,7 +72,15 @@ def case_from_tlc(obj, h, g):
         if rnd.randrange(3) == 0:
             files.reverse()
     via = "cli" if rnd.randrange(16) == 0 else "api"
-    return {"case": "tlc-" + h, "input": {"files": files, "filters": filters, "via": via}}
+    c = {"case": "tlc-" + h, "input": {"files": files, "filters": filters, "via": via}}
+    m = obj.get("machine")
+    if isinstance(m, dict):
+        # the Machine's own report for this text, renamed like the input (drift note only, never a verdict)
+        tl = m.get("todos") if isinstance(m.get("todos"), list) else []
+        c["machine"] = {"panic": bool(m.get("panic")), "file": f0["name"] + (sel_ext if f0["ext"] in inp["filters"] else f0["ext"]),
+                        "todos": [[t["line"], t["assignee"].replace("TODO", word),
+                                   [w.replace("TODO", word) for w in (t["words"] if isinstance(t["words"], list) else [])]] for t in tl]}
+    return c
 
 
 def nontrivial(rec):
@@ -88,5 +96,20 @@ def extra_evidence(records):
     n_entries = sum(len(r["observed"]["todos"]) for r in records)
     n_cli = sum(1 for r in records if r["input"].get("via") == "cli")
     n_files = sum(len(r["input"]["files"]) for r in records)
-    return {"files_rendered": n_files, "entries_observed": n_entries, "cases_via_cli": n_cli,
+    agree = differ = 0
+    drift = []
+    for r in records:
+        m = r.get("machine")
+        if not m:
+            continue
+        o = r["observed"]
+        got = [[t["line"], t["assignee"], t["words"]] for t in o["todos"] if t["file"] == m["file"]]
+        if bool(o["panic"]) == m["panic"] and (m["panic"] or got == m["todos"]):
+            agree += 1
+        else:
+            differ += 1
+            if len(drift) < 5:
+                drift.append(r["case"])
+    return {"machine_vs_code_same_report": agree, "machine_vs_code_different_report": differ, "DRIFT_examples": drift,
+            "files_rendered": n_files, "entries_observed": n_entries, "cases_via_cli": n_cli,
             "panics_observed": sum(1 for r in records if r["observed"]["panic"])}
